@@ -430,6 +430,24 @@ def main(argv):
                 return 1
             print("NOT-REPRODUCED (violations seen: %s)" % [x["signature"] for x in out["violations"]])
             return 0
+        if cmd == "selftest":
+            # determinism on a large sample: every machine, N runs, executed with 16 and with 3 worker processes and
+            # re-executed in two fresh interpreters under other PYTHONHASHSEEDs (reverse order, single process)
+            props = argv[1:] or sorted(PROPERTY_MACHINES)
+            n = int(os.environ.get("DSIM_SELFTEST_RUNS", "400"))
+            seed = int(os.environ.get("VERIF_SEED", "0") or 0)
+            for prop in props:
+                for m in machines_for(prop):
+                    a = explore(m, seed, "quick", n, 16)
+                    b = explore(m, seed, "quick", n, 3)
+                    same = all(a["digests"].get(i) == b["digests"].get(i) for i in set(a["digests"]) | set(b["digests"]))
+                    if not same:
+                        raise HarnessError("machine %s: digests differ between 16 and 3 worker processes" % m.name)
+                    k1 = selftest_digests(m, seed, "quick", a["digests"], n, hashseed="4242")
+                    k2 = selftest_digests(m, seed, "quick", a["digests"], n, hashseed="99")
+                    print("selftest %s: %d violation-free runs identical across worker counts (16/3) and two fresh interpreters (%d, %d compared)" % (
+                        m.name, len(a["digests"]), k1, k2))
+            return 0
         if cmd == "mkfinding":
             # development aid: (re)create the committed replay file of every known finding of a property
             prop = argv[1]
